@@ -147,6 +147,25 @@ def docPairs (d : Doc) : List (Text × Option Text) := d.flatMap (fun kv => kv.2
 def decodeQs (F : Facts03) (cfg : Cfg) (fields : List Fld) (qs : Text) : Outcome Node :=
   decode F cfg fields (parseQs F qs)
 
+/-! ## before the protocol sees the request: is it a request for the WSDL? -/
+
+/-- `WsgiApplication.is_wsdl_request` for a GET whose path does not end in `.wsdl` -/
+def isWsdl (F : Facts03) (qs : Text) : Bool :=
+  match F.wsdlRule with
+  | .firstName => decide ((qs.takeWhile (fun c => c ≠ '=')).map asciiLower = "wsdl".toList)
+  | .suffix => "wsdl".toList.isSuffixOf (qs.map asciiLower)
+  | .other => false
+
+/-- what the transport does with a GET -/
+inductive HttpOutcome where
+  | wsdl                       -- the interface document is returned, no method is called
+  | call (r : Outcome Node)    -- the request object handed to the method (or the fault)
+  deriving Repr
+
+/-- the whole GET path from the transport on: WSDL request or `_parse_qs` + `simple_dict_to_object` -/
+def httpGet (F : Facts03) (cfg : Cfg) (fields : List Fld) (qs : Text) : HttpOutcome :=
+  if isWsdl F qs then .wsdl else .call (decodeQs F cfg fields qs)
+
 /-! ## the response for a single primitive return value -/
 
 /-- a return value as the user function hands it over -/
